@@ -22,14 +22,14 @@ def cfg_for(states, defaults, nodelay=False):
     peers = []
     for i, st in enumerate(states):
         pc = {"name": f"peer{i + 1}.example.org", "ips": [f"10.1.0.{i + 1}"], "persistent": True, "reconnect_wait": 600,
-              "realm": REALM2 if i == 2 else env.NODE_REALM, "default": bool(defaults[i])}
+              "realm": env.NODE_REALM, "default": bool(defaults[i])}
         if st == "waiting_dwa":
             pc["idle_timeout"] = 2
         peers.append(pc)
     return {"node": {"ips": [], "tcp_port": None, "cer_timeout": 600, "cea_timeout": 600, "idle_timeout": 600, "dwa_timeout": 600, "wakeup": 1},
             "peers": peers,
-            "apps": [{"id": 3, "acct": True, "peers": [0, 1]},          # A0: peers 1 and 2, own realm
-                     {"id": 4, "auth": True, "peers": [2]},             # A1: peer 3, realm2
+            "apps": [{"id": 3, "acct": True, "peers": [0, 1, 2]},       # A0: all three peers, own realm
+                     {"id": 4, "auth": True, "peers": [2], "realms": [REALM2]},   # A1: peer 3, own realm + an additional realm
                      {"id": 5, "auth": True, "peers": []}]}             # A2: no peers of its own: default peers only
 
 
@@ -139,6 +139,13 @@ CFG_B = {
 }
 
 
+CFG_B2 = {
+    "node": {"ips": ["10.0.0.1"], "tcp_port": 3868, "idle_timeout": 600, "dwa_timeout": 600, "wakeup": 1},
+    "peers": [{"name": "peer1.example.org"}, {"name": "peer2.example.org"}],
+    "apps": [{"id": 3, "acct": True, "peers": [0]}, {"id": 4, "auth": True, "peers": [1]}],     # one application per connection
+}
+
+
 def _set_points():
     import diameter.node.node as nn
     import diameter.node.application as aa
@@ -156,7 +163,9 @@ def execute_b(variant, prefix):
     ch = scheddfs.Chooser(prefix)
     # same_start: both connections' hop-by-hop generators start at the same value (equal ids in flight on different connections)
     rand_plan = None
-    sc = scenario.Scenario(CFG_B, chooser=ch, max_socks=2, app_timeout=2, rand_plan=[0x10, 0x20, 0x5000, 0x5000] if same_start else None)
+    split = "split" in script
+    sc = scenario.Scenario(CFG_B2 if split else CFG_B, chooser=ch, max_socks=2, app_timeout=2,
+                           rand_plan=[0x10, 0x20, 0x5000, 0x5000] if same_start else None)
     try:
         nw = sc.start()
         for ev in (("accept",), ("m", 0, "cer_p0"), ("accept",), ("m", 1, "cer_p1")):
@@ -290,6 +299,8 @@ def variants_b(tier):
         out.append((((0, 0), script, False), 1 if tier != "thorough" else 2))
     out.append((((0, 1), "rev-dup", False), 1 if tier != "thorough" else 2))         # two applications, one peer in common
     out.append((((0, 0), "rev", True), 1 if tier != "thorough" else 2))              # equal generator start values on both connections
+    out.append((((0, 1), "fwd-split", True), 1 if tier != "thorough" else 2))        # two applications on two connections, equal hop-by-hop ids in flight
+    out.append((((0, 1), "rev-dup-split", True), 1 if tier != "thorough" else 2))
     if tier == "thorough":
         out.append((((0, 0, 1), "rev-late", False), 1))
         out.append((((0, 0, 0), "fwd-dup", True), 1))
